@@ -36,13 +36,20 @@ def install_exc(eng):
 
     def cxa_throw(e, st, args, ins):
         st.exc = conc(args[0])
+        st.user["inflight"] = st.user.get("inflight", 0) + 1
         st.user["throwing"] = True
         st.events.append(("throw",))
         return [(st, None)]
     noop = lambda e, st, args, ins: [(st, None)]
     eng.stubs["__cxa_allocate_exception"] = alloc_exc
     eng.stubs["__cxa_throw"] = cxa_throw
-    eng.stubs["__cxa_begin_catch"] = lambda e, st, args, ins: [(st, args[0])]
+    def begin_catch(e, st, args, ins):
+        st.user["inflight"] = max(0, st.user.get("inflight", 0) - 1)     # the exception is caught: no longer "uncaught"
+        return [(st, args[0])]
+    eng.stubs["__cxa_begin_catch"] = begin_catch
+    # std::uncaught_exceptions(): exceptions thrown and not yet caught (1 while cleanup pads run during unwinding)
+    eng.stubs["_ZSt19uncaught_exceptionsv"] = lambda e, st, args, ins: [(st, BV(st.user.get("inflight", 0), 32))]
+    eng.stubs["_ZSt18uncaught_exceptionv"] = lambda e, st, args, ins: [(st, BV(1 if st.user.get("inflight", 0) else 0, 8))]
     for nm in ("__cxa_end_catch", "__cxa_free_exception", "_ZNSt13runtime_errorC1EPKc", "_ZNSt13runtime_errorD1Ev", "__cxa_rethrow"):
         eng.stubs[nm] = noop
     eng.stubs["_ZNSt6chrono3_V212system_clock3nowEv"] = lambda e, st, args, ins: [(st, e.fresh("clk", 64))]
